@@ -301,6 +301,26 @@ def completion_ortho_defer_machines():
              ("process", 4, 4, [], []), ("process", 4, 5, [], []), ("process", 5, 6, [], [])]]
     return [("completion_ortho_defer", md, opss)]
 
+def defer_completion_order_machines():
+    """deferred events of two types around a completion transition (seeded C05e): Idle defers e4 and e5, Armed defers e4
+    only; stored in the order e4(1) e5(2) e4(3); e6 takes Idle to Armed: e4(1) is offered and deferred again, e5(2) is
+    consumed (Armed -> Warmup, completion to Ready), and only then are e4(1) and e4(3) offered to Ready - in arrival
+    order. The second machine does the same with a chain of two completion transitions and a third stored e4"""
+    out = []
+    for name, chain in (("defer_completion_order", 1), ("defer_completion_order_chain", 2)):
+        sts = [state(defers=[4, 5]), state(defers=[4]), state(), state()] + ([state()] if chain == 2 else [])
+        rows = [row(10, 0, 6, 1), row(11, 1, 5, 2), row(12, 2, "none", 3, act="call"), row(13, 3, 4, "none", act="call")]
+        if chain == 2:
+            rows = [row(10, 0, 6, 1), row(11, 1, 5, 2), row(12, 2, "none", 4, act="call"), row(14, 4, "none", 3, act="call"),
+                    row(13, 3, 4, "none", act="call")]
+        md = mdef(machine(sts, [0], rows), 3)
+        ops = [("start", [], []), ("process", 4, 1, [], []), ("process", 5, 2, [], []), ("process", 4, 3, [], [])]
+        if chain == 2:
+            ops.append(("process", 4, 4, [], []))
+        ops += [("process", 6, 5, [], []), ("process", 4, 6, [], [])]
+        out.append((name, md, [ops]))
+    return out
+
 def flag_machines():
     """a flag carried only by a substate of a submachine; the enclosing machine leaves the submachine by a row with an
     action into a flagged simple state: what is_flag_active answers inside the action and the target's entry must follow
@@ -472,7 +492,7 @@ def rowkind_machines():
 def main():
     os.makedirs(os.path.join(VERIF, "corpus"), exist_ok=True)
     n = 0
-    for item in fwd_machines() + ortho_machines() + defer_code_machines() + defer_ortho_reject_machines() + defer_action_machines() + base_event_machines() + block_machines() + pseudo_machines() + fork_machines() + explicit_completion_machines() + completion_ortho_defer_machines() + flag_machines() + throw_machines() + throw_in_pool_machines() + throw_nested_machines() + copy_history_machines() + save_pseudo_machines() + rowkind_machines():
+    for item in fwd_machines() + ortho_machines() + defer_code_machines() + defer_ortho_reject_machines() + defer_action_machines() + base_event_machines() + block_machines() + pseudo_machines() + fork_machines() + explicit_completion_machines() + completion_ortho_defer_machines() + defer_completion_order_machines() + flag_machines() + throw_machines() + throw_in_pool_machines() + throw_nested_machines() + copy_history_machines() + save_pseudo_machines() + rowkind_machines():
         name, md, opss = item[:3]
         save(name, md, opss, cfgs=item[3] if len(item) > 3 else None)
         n += 1
